@@ -224,4 +224,105 @@ Section Kernels.
     set (t2' := set_limit_planned (set_inf_growable t1' false) zero) in *.
     track_open H2. rewrite (sc_ltb k _ _ _ _ Hk Hgl Hbase). destruct (ltb (growth_limit t2) (base_size t2)); [apply rel_set_limit|]; assumption.
   Qed.
+
+  (* ================================================================================================================
+     6. distribute_item_space_to_growth_limit / to_limit (through distribute_space_up_to_limits: THRESHOLD) *)
+  Lemma tfun_limit_or_base : tfun_sc k limit_or_base limit_or_base.
+  Proof.
+    intros t t' Ht. track_open Ht. unfold limit_or_base. rewrite (sc_eqb_infinity k _ _ Hk Hgl).
+    destruct (eqb (growth_limit t) infinity); assumption.
+  Qed.
+
+  Lemma rel_distribute_item_space_to_growth_limit inner inner' sp sp' ts ts' aff aff' :
+    O inner inner' -> L sp sp' -> affected_inv k aff aff' -> tracks_rel k ts ts' ->
+    tracks_rel k (distribute_item_space_to_growth_limit inner sp ts aff) (distribute_item_space_to_growth_limit inner' sp' ts' aff').
+  Proof.
+    intros Hi Hsp Haff Hts. unfold distribute_item_space_to_growth_limit.
+    rewrite (sc_eqb k _ _ zero zero Hk Hsp (sc_zero k)),
+            (rel_length (track_rel k) _ _ (rel_filter (track_rel k) _ _ _ _ Haff Hts)).
+    destruct ((sp =? zero)%num || Nat.eqb (length (filter aff ts)) 0)%bool; [exact Hts|]. cbv zeta.
+    assert (Hex : L (fmax zero (sp - fsum (map limit_or_base ts))%num) (fmax zero (sp' - fsum (map limit_or_base ts'))%num)).
+    { apply (sc_max k); [exact Hk | apply sc_zero | apply sc_sub; [exact Hsp|]]. apply rel_fsum.
+      apply (rel_map (track_rel k) L); [exact tfun_limit_or_base | exact Hts]. }
+    set (ex := fmax zero (sp - fsum (map limit_or_base ts))%num) in *.
+    set (ex' := fmax zero (sp' - fsum (map limit_or_base ts'))%num) in *.
+    set (grows := fun t : track XQ => (aff t && (infinitely_growable t || (fit_content_limited_growth_limit inner t =? infinity)%num))%bool).
+    set (grows' := fun t : track XQ => (aff' t && (infinitely_growable t || (fit_content_limited_growth_limit inner' t =? infinity)%num))%bool).
+    assert (Hgr : affected_inv k grows grows').
+    { intros t t' Ht. unfold grows, grows'. rewrite (Haff _ _ Ht). track_open Ht. rewrite Eig.
+      rewrite (sc_eqb_infinity k _ _ Hk (rel_fit_content_limited_growth_limit k Hk _ _ _ _ Hi Ht)). reflexivity. }
+    apply (rel_map (track_rel k) (track_rel k)).
+    { intros t t' Ht. track_open Ht. rewrite (sc_ltb k _ _ _ _ Hk Hlp Hinc).
+      apply rel_set_incurred; [|apply sc_zero]. destruct (ltb (limit_planned t) (incurred t)); [apply rel_set_limit_planned|]; assumption. }
+    rewrite (rel_length (track_rel k) _ _ (rel_filter (track_rel k) _ _ _ _ Hgr Hts)).
+    destruct (length (filter grows ts)) as [|n] eqn:En.
+    - change (tracks_rel k (snd (distribute_space_up_to_limits_t threshold ex ts aff (fun _ => one) limit_or_base (fit_content_limit inner)))
+                           (snd (distribute_space_up_to_limits_t threshold ex' ts' aff' (fun _ => one) limit_or_base (fit_content_limit inner')))).
+      apply (distribute_space_up_to_limits_homog k Hk threshold threshold Hthr aff aff' (fun _ => one) (fun _ => one)
+               limit_or_base limit_or_base (fit_content_limit inner) (fit_content_limit inner') Haff);
+        [intros ? ? ?; apply dl_one | exact tfun_limit_or_base | apply tfun_fit_content_limit; exact Hi | exact Hex | exact Hts].
+    - apply (rel_map (track_rel k) (track_rel k)); [|exact Hts]. intros t t' Ht. cbv beta.
+      pose proof (Hgr _ _ Ht) as Eg. unfold grows, grows' in Eg. cbv beta in Eg. rewrite Eg.
+      match goal with |- track_rel k (if ?b then _ else _) _ => destruct b end; [|exact Ht]. apply rel_set_incurred; [exact Ht|].
+      apply (sc_div_dl k); [exact Hk | exact Hex | apply dl_of_Z].
+  Qed.
+
+  Lemma rel_to_limit inner inner' (it : item XQ) sp sp' aff aff' ts ts' :
+    O inner inner' -> L sp sp' -> affected_inv k aff aff' -> tracks_rel k ts ts' ->
+    tracks_rel k (to_limit inner it sp aff ts) (to_limit inner' it sp' aff' ts').
+  Proof.
+    intros Hi Hsp Haff Hts. unfold to_limit.
+    rewrite (sc_ltb k _ _ _ _ Hk (sc_zero k) Hsp). destruct (ltb zero sp); [|exact Hts].
+    apply rel_on_slice; [|exact Hts]. intros sl sl' Hsl. apply rel_distribute_item_space_to_growth_limit; assumption.
+  Qed.
+
+  (* ================================================================================================================
+     7. helpers of Model/GridAlg.v *)
+  Lemma rel_all_some (l l' : list (option XQ)) : Forall2 O l l' -> op_rel (Forall2 L) (all_some l) (all_some l').
+  Proof.
+    intros Hl. induction Hl as [|o o' l l' Ho Hl IH]; cbn [all_some op_rel]; [constructor|].
+    destruct o, o'; cbn [op_rel] in Ho; try contradiction; [|exact I].
+    destruct (all_some l), (all_some l'); cbn [op_rel] in IH |- *; try contradiction; [|exact I]. constructor; assumption.
+  Qed.
+  Lemma rel_osum (l l' : list (option XQ)) : Forall2 O l l' -> O (osum l) (osum l').
+  Proof.
+    intros Hl. unfold osum. pose proof (rel_all_some _ _ Hl) as H.
+    destruct (all_some l), (all_some l'); cbn [op_rel option_map] in H |- *; try contradiction; [|exact I]. apply rel_fsum. exact H.
+  Qed.
+
+  Lemma rel_track_estimate fp t t' p p' : O p p' -> track_rel k t t' -> O (track_estimate fp t p) (track_estimate fp t' p').
+  Proof. intros Hp Ht. track_open Ht. unfold track_estimate. destruct fp; [apply rel_definite_value; assumption | exact Hbase]. Qed.
+  Lemma rel_adj_at a a' i : L a a' -> L (adj_at a i) (adj_at a' i).
+  Proof. intros Ha. unfold adj_at. destruct (Nat.even i && Nat.leb 2 i)%bool; [exact Ha | apply sc_zero]. Qed.
+
+  Lemma rel_compute_alignment_gutter_adjustment al inner inner' fp ts ts' :
+    O inner inner' -> tracks_rel k ts ts' ->
+    L (compute_alignment_gutter_adjustment al inner fp ts) (compute_alignment_gutter_adjustment al inner' fp ts').
+  Proof.
+    intros Hi Hts. unfold compute_alignment_gutter_adjustment. rewrite (rel_length (track_rel k) _ _ Hts).
+    destruct (Nat.leb (length ts) 1); [apply sc_zero|]. destruct (Nat.eqb (inner_gutter_weight al) 0); [apply sc_zero|].
+    destruct inner as [s|], inner' as [s'|]; cbn [op_rel] in Hi; try contradiction; [|apply sc_zero].
+    apply (sc_mul_dl k); [exact Hk | | apply dl_of_Z]. apply (sc_div_dl k); [exact Hk | | apply dl_of_Z].
+    assert (Ho : O (osum (map (fun t => track_estimate fp t (Some s)) ts)) (osum (map (fun t => track_estimate fp t (Some s')) ts'))).
+    { apply rel_osum. apply (rel_map (track_rel k) O); [|exact Hts]. intros t t' Ht. apply rel_track_estimate; [exact Hi | exact Ht]. }
+    destruct (osum (map (fun t => track_estimate fp t (Some s)) ts)), (osum (map (fun t => track_estimate fp t (Some s')) ts'));
+      cbn [op_rel] in Ho; try contradiction; [|apply sc_zero].
+    apply (sc_max k); [exact Hk | apply sc_zero | apply sc_sub; assumption].
+  Qed.
+
+  Lemma rel_reresolve_percent c c' ts ts' : L c c' -> tracks_rel k ts ts' -> tracks_rel k (reresolve_percent c ts) (reresolve_percent c' ts').
+  Proof.
+    intros Hc Hts. apply (rel_map (track_rel k) (track_rel k)); [|exact Hts]. intros t t' Ht. cbv zeta. track_open Ht.
+    assert (Hp : forall f f', sfn_rel k f f' ->
+                   O (match f with SPercent v => Some (v * c)%num | _ => None end) (match f' with SPercent v => Some (v * c')%num | _ => None end)).
+    { intros f f' Hf. destruct f, f'; cbn [sfn_rel] in Hf; try contradiction; cbn [op_rel]; try exact I.
+      apply (sc_dl_mul k); assumption. }
+    apply rel_set_base; [exact Ht|]. apply (rel_maybe_clamp_fo k Hk); [exact Hbase | apply Hp; exact Hmin | apply Hp; exact Hmax].
+  Qed.
 End Kernels.
+
+(* the threshold hypotheses hold at k = 1 (and only there: Proofs/ScaleGrid.v, maximise_tracks_not_homogeneous) *)
+Lemma thr_one : sc 1 (threshold (T := XQ)) threshold.
+Proof. apply dl_sc1. apply dl_refl. Qed.
+Lemma base_thr_one : sc 1 (base_threshold (T := XQ)) base_threshold.
+Proof. apply dl_sc1. apply dl_refl. Qed.
